@@ -3,6 +3,7 @@ package main
 import (
 	"fmt"
 	"go/token"
+	"go/types"
 	"sort"
 	"strings"
 
@@ -66,13 +67,15 @@ func payloadMarkers(c *Ctx, pa *provAnalysis, fr *Frame) map[string]bool {
 }
 
 func checkC01(c *Ctx, r *Report) {
-	r.Rules = []string{"D1 payload dispatch matrix (prepared type x packager)", "F1 header field provenance per entry class", "F2 default mode is stat &^ umask, explicit modes verbatim", "D2 directory / owner defaults", "parents for every entry (shared with C05)"}
-	r.Explanation = "Structural necessary conditions of payload fidelity. (D1) each packager's payload writer — the function that loops over the prepared contents, branches on the entry type and writes archive headers named after destinations — is abstractly evaluated for every prepared entry type; the set of live mechanisms (directory header, link header, read of the entry's source, header written/added) is compared with the table transcribed from the statement: directories -> directory entry without reading a source (implied directories skipped in rpm only), symlinks -> link entry without reading a source, file and config types (and rpm's doc/licence/readme) -> source opened and an entry written, ghost -> header only, the deb changelog -> a generated member. (F1) for every tar header / rpm file record created for payload entries, the definitions that reach the write (flow-sensitive) must feed name from the destination, mode from the entry's mode (an explicit store over tar.FileInfoHeader's permission-only mode), owner from owner and group from group (not swapped), modification time from the entry's mtime, link target from the entry's source. (F2) in the planner the mode taken from disk is stat-mode AND-NOT umask and is stored only when no mode is set. (D2) directory mode defaults to 0755 and owner/group to root. Byte equality of copied files, glob results, concrete mode values and 'nothing else in the payload' are not decided."
+	r.Rules = []string{"D1 payload dispatch matrix (prepared type x packager)", "F1 header field provenance per entry class", "F1-body entry bodies read from the source and copied verbatim", "F1-only every payload member is written for a contents entry", "F2 default mode is stat &^ umask, explicit modes verbatim", "D2 directory / owner defaults", "parents for every entry (shared with C05)"}
+	r.Explanation = "Structural necessary conditions of payload fidelity. (D1) each packager's payload writer — the function that loops over the prepared contents, branches on the entry type and writes archive headers named after destinations — is abstractly evaluated for every prepared entry type; the set of live mechanisms (directory header, link header, read of the entry's source, header written/added) is compared with the table transcribed from the statement: directories -> directory entry without reading a source (implied directories skipped in rpm only), symlinks -> link entry without reading a source, file and config types (and rpm's doc/licence/readme) -> source opened and an entry written, ghost -> header only, the deb changelog -> a generated member. (F1) for every tar header / rpm file record created for payload entries, the definitions that reach the write (flow-sensitive) must feed name from the destination, mode from the entry's mode (an explicit store over tar.FileInfoHeader's permission-only mode), owner from owner and group from group (not swapped), modification time from the entry's mtime, link target from the entry's source. (F1-body) every file opened or read under a path derived from a contents entry on the payload writer's call graph is named by the entry's source alone, and the bytes read reach an archive write, a copy into the archive or the rpm file body through conversions only (no slicing, limiting or rewriting step). (F1-only) every tar header write / rpm AddFile on the payload writer's call graph lies in the body of a loop that has loaded an element of the prepared contents, or in a function reached only from such loop bodies: the writer adds no member of its own. (F2) in the planner the mode taken from disk is stat-mode AND-NOT umask and is stored only when no mode is set. (D2) directory mode defaults to 0755 and owner/group to root. Equality of the bytes on disk at packaging time with what a later reader sees, glob results and concrete mode values are not decided."
 	r.Assumptions = []string{
 		"io.Copy / tar.Writer.Write / rpmpack copy the bytes they are handed",
 		"tar.FileInfoHeader(fi, link) sets ModTime from fi.ModTime(), Size from fi.Size() and Mode from fi.Mode().Perm() (hand model)",
 	}
 	cells := 0
+	nbody := 0
+	nonly := 0
 	for _, pk := range c.Packagers {
 		if pk.Format == "" {
 			continue
@@ -127,7 +130,11 @@ func checkC01(c *Ctx, r *Report) {
 			r.Check(ok, "D1", construct, c.pos(w.Pos()), fmt.Sprintf("live mechanisms {%s}; the statement requires outcome %s for this entry type in %s", joinSorted(got), want, pk.Format))
 		}
 		checkPayloadHeaders(c, r, pk, w, pa)
+		nbody += checkPayloadBodies(c, r, pk, w, pa)
+		nonly += checkOnlyEntries(c, r, pk, w)
 	}
+	r.Floor("F1-body", nbody, 5)
+	r.Floor("F1-only", nonly, 8)
 	r.Count("dispatch_cells", cells)
 	checkPlannerDefaults(c, r)
 	// parents for every entry: the plan rules of C05
@@ -450,4 +457,187 @@ func isUmaskOperand(v ssa.Value) bool {
 		}
 	}
 	return false
+}
+
+// checkPayloadBodies: F1-body. Every read of a file whose path derives from a
+// contents entry, on the payload writer's call graph, must read the entry's
+// source (not its destination or anything else), and the bytes read must reach
+// an archive write / copy / rpm file body through conversions only: no
+// slicing, limiting, replacing or re-encoding step may sit between the source
+// file and the package.
+func checkPayloadBodies(c *Ctx, r *Report, pk *Packager, w *ssa.Function, pa *provAnalysis) int {
+	n := 0
+	for _, fn := range sortedFuncs(c, c.Reach(w)) {
+		if c.funcPkgPath(fn) != pk.PkgPath {
+			continue
+		}
+		k := 0
+		forEachInstr(fn, func(in ssa.Instruction) {
+			call, ok := in.(*ssa.Call)
+			if !ok {
+				return
+			}
+			o := calleeObj(call)
+			if o == nil {
+				return
+			}
+			switch qualifiedName(o) {
+			case "os.Open", "os.OpenFile", "os.ReadFile":
+			default:
+				return
+			}
+			p := pa.Of(call.Call.Args[0])
+			fromEntry := false
+			for _, a := range p.fields() {
+				if strings.HasPrefix(a, "Content.") {
+					fromEntry = true
+				}
+			}
+			if !fromEntry {
+				return
+			}
+			n++
+			k++
+			construct := fmt.Sprintf("%s: payload bytes read#%d in %s", pk.Format, k, c.funcKey(fn))
+			var entryAtoms []string
+			for _, a := range p.fields() {
+				if strings.HasPrefix(a, "Content.") {
+					entryAtoms = append(entryAtoms, a)
+				}
+			}
+			if len(entryAtoms) != 1 || entryAtoms[0] != "Content.Source" {
+				r.Fail("F1-body", construct, c.instrPos(call), fmt.Sprintf("the file read for the entry's body is named by {%s}; it must be the entry's source", strings.Join(entryAtoms, ",")))
+				return
+			}
+			forwardPA = pa
+			sinks, bad := forwardBytes(c, call, map[ssa.Value]bool{}, 0)
+			switch {
+			case len(bad) > 0:
+				sort.Strings(bad)
+				r.Fail("F1-body", construct, c.instrPos(call), fmt.Sprintf("the bytes read pass through %v before they are written to the package: file bodies must be copied byte for byte", uniq(bad)))
+			case sinks == 0:
+				r.Fail("F1-body", construct, c.instrPos(call), "the bytes read never reach an archive write, a copy into the archive or an rpm file body")
+			default:
+				r.Pass("F1-body", construct, c.instrPos(call), fmt.Sprintf("path is the entry's source; bytes reach %d write sink(s) through conversions only", sinks))
+			}
+		})
+	}
+	return n
+}
+
+// checkOnlyEntries: F1-only. "Nothing else is in the payload": in the payload
+// writer every member is written for an element of the prepared contents -
+// each header write (tar WriteHeader / rpm AddFile) on the writer's call
+// graph lies in the body of a loop that has loaded an element of a
+// []*files.Content, or in a function reached only from such loop bodies.
+func checkOnlyEntries(c *Ctx, r *Report, pk *Packager, w *ssa.Function) int {
+	inLoop := contentsLoopBody(w)
+	isWrite := func(in ssa.Instruction) bool {
+		call, ok := in.(*ssa.Call)
+		if !ok {
+			return false
+		}
+		return calleeIs(call, "archive/tar", "Writer", "WriteHeader") || calleeIs(call, rpmpackPath, "RPM", "AddFile")
+	}
+	// functions reachable from call sites of w that are outside the loop
+	outside := map[*ssa.Function]bool{}
+	var mark func(fn *ssa.Function, d int)
+	mark = func(fn *ssa.Function, d int) {
+		if fn == nil || fn == w || outside[fn] || d > 12 || fn.Blocks == nil || c.funcPkgPath(fn) != pk.PkgPath {
+			return
+		}
+		outside[fn] = true
+		forEachInstr(fn, func(in ssa.Instruction) {
+			if call, ok := in.(ssa.CallInstruction); ok {
+				mark(call.Common().StaticCallee(), d+1)
+				for _, a := range call.Common().Args {
+					if mc, ok := a.(*ssa.MakeClosure); ok {
+						mark(mc.Fn.(*ssa.Function), d+1)
+					}
+				}
+			}
+		})
+		for _, an := range fn.AnonFuncs {
+			mark(an, d+1)
+		}
+	}
+	forEachInstr(w, func(in ssa.Instruction) {
+		if call, ok := in.(ssa.CallInstruction); ok && !inLoop(in) {
+			mark(call.Common().StaticCallee(), 0)
+		}
+	})
+	n := 0
+	for _, fn := range sortedFuncs(c, c.Reach(w)) {
+		if c.funcPkgPath(fn) != pk.PkgPath {
+			continue
+		}
+		k := 0
+		forEachInstr(fn, func(in ssa.Instruction) {
+			if !isWrite(in) {
+				return
+			}
+			n++
+			k++
+			construct := fmt.Sprintf("%s: member write#%d in %s is made for a contents entry", pk.Format, k, c.funcKey(fn))
+			switch {
+			case fn == w && !inLoop(in):
+				r.Fail("F1-only", construct, c.instrPos(in), "this member is written outside the loop over the prepared contents: the payload would hold an entry the configuration does not denote")
+			case fn != w && outside[fn]:
+				r.Fail("F1-only", construct, c.instrPos(in), "this function is also reached from "+c.funcKey(w)+" outside the loop over the prepared contents: the payload would hold an entry the configuration does not denote")
+			default:
+				r.Pass("F1-only", construct, c.instrPos(in), "written in the body of the loop over the prepared contents (or in a function reached only from there)")
+			}
+		})
+	}
+	return n
+}
+
+// contentsLoopBody: predicate "the instruction lies in a loop body that has
+// loaded an element of a []*files.Content".
+func contentsLoopBody(fn *ssa.Function) func(ssa.Instruction) bool {
+	var elemBlocks []*ssa.BasicBlock
+	forEachInstr(fn, func(in ssa.Instruction) {
+		ia, ok := in.(*ssa.IndexAddr)
+		if !ok {
+			return
+		}
+		var elem types.Type
+		switch t := ia.X.Type().Underlying().(type) {
+		case *types.Slice:
+			elem = t.Elem()
+		case *types.Pointer:
+			if a, ok := t.Elem().Underlying().(*types.Array); ok {
+				elem = a.Elem()
+			}
+		}
+		if elem != nil && isNamed(derefType(elem), modPath+"/files", "Content") {
+			elemBlocks = append(elemBlocks, ia.Block())
+		}
+	})
+	reach := func(from, to *ssa.BasicBlock) bool {
+		seen := map[*ssa.BasicBlock]bool{}
+		stack := append([]*ssa.BasicBlock{}, from.Succs...)
+		for len(stack) > 0 {
+			b := stack[len(stack)-1]
+			stack = stack[:len(stack)-1]
+			if b == to {
+				return true
+			}
+			if seen[b] {
+				continue
+			}
+			seen[b] = true
+			stack = append(stack, b.Succs...)
+		}
+		return false
+	}
+	return func(in ssa.Instruction) bool {
+		b := in.Block()
+		for _, e := range elemBlocks {
+			if (e == b || e.Dominates(b)) && (e == b && reach(b, b) || e != b && reach(b, e)) {
+				return true
+			}
+		}
+		return false
+	}
 }
